@@ -131,6 +131,58 @@ func rebalancer() *sched.Instance {
 	return inst
 }
 
+type scriptMeter struct {
+	rating float64
+	ready  bool
+}
+
+func (m *scriptMeter) Rating() float64           { return m.rating }
+func (m *scriptMeter) Record(int, time.Duration) {}
+func (m *scriptMeter) IsReady() bool             { return m.ready }
+
+// rebalancerAdjusting: scripted, ready meters make every completing request re-weight the
+// pool while an administrator re-adds a server; at quiescence ratings are equalised and the
+// configured weights must come back: no administration update may be lost.
+func rebalancerAdjusting() *sched.Instance {
+	c := &counter{}
+	rr, _ := roundrobin.New(okHandler(c, false))
+	var meters []*scriptMeter
+	rb, _ := roundrobin.NewRebalancer(rr, roundrobin.RebalancerBackoff(time.Second), roundrobin.RebalancerMeter(func() (roundrobin.Meter, error) {
+		m := &scriptMeter{ready: true}
+		meters = append(meters, m)
+		return m, nil
+	}))
+	a, b := mustURL("http://a"), mustURL("http://b")
+	rb.UpsertServer(a)
+	rb.UpsertServer(b)
+	meters[0].rating = 1 // a is failing: b gets boosted by every adjustment
+	inst := &sched.Instance{Names: []string{"req1", "req2", "admin"}}
+	inst.Bodies = []func(){
+		func() { serve(rb); clock.VerifAdvance(2 * time.Second); serve(rb) },
+		func() { serve(rb) },
+		func() { rb.UpsertServer(b); rb.Servers() },
+	}
+	inst.Check = func(*vrt.Exec) []vrt.Failure {
+		if c.get(0) != 3 {
+			return []vrt.Failure{fail("lost-update:rebalancer", "3 requests, handler invoked %d times", c.get(0))}
+		}
+		for _, m := range meters {
+			m.rating = 0
+		}
+		for k := 0; k < 7; k++ {
+			clock.VerifAdvance(2 * time.Second)
+			serve(rb)
+		}
+		wa, _ := rr.ServerWeight(a)
+		wb, _ := rr.ServerWeight(b)
+		if wa != wb {
+			return []vrt.Failure{fail("lost-update:rebalancer-configured-weight", "both servers were configured with weight 1; after ratings equalised for seven back-off rounds the weights are a=%d b=%d", wa, wb)}
+		}
+		return nil
+	}
+	return inst
+}
+
 type effect struct{ c *counter }
 
 func (e effect) Exec() error { e.c.inc(1); return nil }
@@ -328,6 +380,7 @@ func Scenarios(tier string) []*sched.Scenario {
 	return []*sched.Scenario{
 		mk("roundrobin", b, up, roundRobin),
 		mk("rebalancer", b, up, rebalancer),
+		mk("rebalancer-adjusting", b, up, rebalancerAdjusting),
 		mk("breaker", b, up, breaker),
 		mk("rtmetrics", b, up, rtMetrics),
 		mk("rtmetrics-export", b, up, rtMetricsExport),
